@@ -134,6 +134,24 @@ def jsonable(snap, mem=False):
     return out
 
 
+def unjson(js):
+    """inverse of jsonable(snap, mem=True): a snapshot that restore() accepts"""
+    out = {}
+    for k, v in js.items():
+        if k.startswith('mem') and not k.startswith('memgeom') and isinstance(v, str):
+            out[k] = bytes.fromhex(v)
+        elif isinstance(v, str):
+            try:
+                out[k] = int(v)
+            except ValueError:
+                out[k] = v
+        elif isinstance(v, list):
+            out[k] = tuple(v)
+        else:
+            out[k] = v
+    return out
+
+
 GPR_NAMES = None
 
 
